@@ -5,7 +5,7 @@ From J5V.lib Require Import Outcome.
 From J5V.model Require Import ReflectDesc ReflectSchema Reflect ReflectOwn ExportForm Export ExportFields ExportApi.
 From J5V.model Require ReflectCorr ExportCorr.
 From J5V.gen Require ReflectGen.
-From J5V.proofs Require Import ReflectProofs ExportProofs ReflectInvProofs ReflectWeakProofs ExportApiProofs.
+From J5V.proofs Require Import ReflectProofs ExportProofs ExportKindProofs ReflectInvProofs ReflectWeakProofs ExportApiProofs.
 Import ListNotations.
 
 Definition entries_of (st : sset) : list (ref * root) :=
@@ -109,6 +109,18 @@ Theorem C15_reflected_roundtrip : forall D fs S,
     refs_resolved S' = true.
 Proof. exact reflect_export_import_roundtrip_any. Qed.
 Print Assumptions C15_reflected_roundtrip.
+
+(* "every reference resolved", with kinds: [refs_resolved] asks that a reference names a linked entry; the round
+   trip also cannot change what KIND of schema it leads to. Kinds and (reference, expected kind) pairs are read
+   off the exported form (object field -> object, oneof field -> oneof, enum field -> enum). If every reference
+   of the exported set leads to a root of the expected kind, so does every reference of the rebuilt set.
+   (That a REFLECTED set is kind-correct is the business of C18: paths resolve to fields of the matching kind.) *)
+Theorem C15_roundtrip_keeps_reference_kinds : forall S : list (ref * root),
+  NoDup (map fst S) -> all_importable S -> closed S -> (forall k r, In (k, r) S -> kinded_in S r) ->
+  exists S', import_api (export_entries S) = ROk S' /\ refs_resolved S' = true /\
+    forall k r', lookup S' k = Some (Linked r') -> kinded_st S' r'.
+Proof. exact export_import_keeps_kinds. Qed.
+Print Assumptions C15_roundtrip_keeps_reference_kinds.
 
 (* ---- the package bookkeeping of APIFromImage (getSchemaSet / getPackage / getSubPackage /
    splitPackageParts) and the names PackageSetFromSourceAPI rebuilds ("%s.%s"): splitting a package
